@@ -38,7 +38,10 @@ def arbiter_config(draw, max_n=6, min_n=1):
             # every initiator interface created with the same path (identically named signals)
             "same_path": draw(st.sampled_from([False, False, True])),
             # initiator interfaces are instances of a user subclass with value equality (all equal, same hash)
-            "eq_intrs": draw(st.sampled_from([False] * 5 + [True]))}
+            "eq_intrs": draw(st.sampled_from([False] * 5 + [True])),
+            # an unrelated wishbone.Decoder with every optional signal sits in the same design (elaborated
+            # first) and sees arbitrary traffic of its own
+            "neighbour": draw(st.sampled_from([False, False, False, True]))}
 
 
 def schedule_spec():
@@ -145,7 +148,17 @@ def run_schedule(cfg, sched, stats, prop, check_bus, check_next):
     feat = set(cfg["feat"])
     aw, dw = cfg["aw"], cfg["dw"]
     bus = arb.bus
-    top = sim.wrap(arb)
+    nb = None
+    if cfg.get("neighbour"):
+        from amaranth_soc.memory import MemoryMap
+        nb = wishbone.Decoder(addr_width=3, data_width=8, features=["err", "rty", "stall", "lock", "cti", "bte"])
+        nb_sub = wishbone.Interface(addr_width=2, data_width=8, features=["lock", "cti", "bte"], path=("nbsub",))
+        nb_sub.memory_map = MemoryMap(addr_width=2, data_width=8)
+        nb.add(nb_sub)
+        top = sim.wrap(nb, arb)
+        stats.label("neighbour_decoder")
+    else:
+        top = sim.wrap(arb)
     seed = sched["dseed"]
     owner = [0]
     nsel_bus = dw // cfg["g"]
@@ -162,6 +175,11 @@ def run_schedule(cfg, sched, stats, prop, check_bus, check_next):
 
     async def tb(ctx):
         for t in range(sched["cycles"]):
+            if nb is not None:
+                ctx.set(nb.bus.cyc, hval(seed, "nbc", t, 1)); ctx.set(nb.bus.stb, hval(seed, "nbs", t, 1))
+                ctx.set(nb.bus.lock, hval(seed, "nbl", t, 2) != 0)
+                ctx.set(Value.cast(nb.bus.cti), CTI_VALUES[hval(seed, "nbt", t, 2)]); ctx.set(Value.cast(nb.bus.bte), hval(seed, "nbb", t, 2))
+                ctx.set(nb.bus.adr, hval(seed, "nba", t, 3))
             for gi, gh in enumerate(arb.ghosts):      # refused initiators request all the time: must not matter
                 ctx.set(gh.cyc, 1); ctx.set(gh.stb, 1)
                 if len(gh.adr):
